@@ -27,7 +27,7 @@ RULE = (
     "other compiles; non-trivial = pattern with >= 1 field spec; distinct = distinct (pattern text, node fingerprint)"
 )
 ASSUMPTIONS = ["sequence patterns applied to str-valued fields and field names that are properties/methods are not generated (don't-care)"]
-MUST_SEE = [
+MUST_SEE = ["regex_on_hash_equal_values", 
     "tail_vs_too_short", "capture_on_seq_with_tail", "two_any_captures", "var_node_other_origin", "second_alternative_subclass",
     "matches", "mismatches", "reasked", "multi_questions", "regex_middle_only", "tail_capture", "empty_seq_vs_nonempty", "reasked_after_rejected",
 ]
@@ -256,3 +256,25 @@ def run_shard(ctx):
                     ctx.violation("history", f"answer changed when asked again ({mode}): {err}", {"pattern": text, "node": repr(node)[:300]})
         if len(history) > 4000:
             del history[:2000]
+
+    # ---- one regex against values that are == and hash-equal but print differently (1 / True / 1.0, 0 / False / 0.0) ----
+    import re as _re2
+
+    rng = ctx.rng("hash-equal-values")
+    vals = [1, True, 1.0, 0, False, 0.0, -0.0, 10, "1", "True"]
+    leaves = [U.cls[f"{P}Leaf"](v=v, s=str(i)) for i, v in enumerate(vals)]
+    regexes = ["1$", "True", "1\\.0$", "0$", "False$", "0\\.0", "-0", "1", "[01]$", "(True|False)$", ".*0$"]
+    qs = [(rx, lf) for rx in regexes for lf in leaves]
+    rng.shuffle(qs)
+    for rx, lf in qs:
+        text = f'({P}Leaf @v="{rx}")'
+        m, msg = NodeMatcher.from_pattern(text)
+        ctx.evaluations += 1
+        ctx.count("regex_on_hash_equal_values")
+        if m is None:
+            ctx.violation("well-formed-rejected", f"pattern rejected: {msg[:200]}", {"pattern": text})
+            continue
+        exp = _re2.match(rx.replace("\\\\", "\\"), str(lf.v)) is not None
+        got = m.match(lf)[0]
+        if got != exp:
+            ctx.violation("verdict", f"match verdict {got}, the regex applied to str(value) says {exp}", {"pattern": text, "value": repr(lf.v), "how": "hash-equal values in one history"})
